@@ -31,6 +31,7 @@ type GwEpoch struct {
 	TouchRef uint64 // wire-log number of the earliest-sent client frame seen on this channel
 	GwSent   bool   // the gateway itself has transmitted telegrams on this channel
 	ConnRes  []byte
+	LastSt   uint8 // status of the acknowledgement of the request accepted last (a repetition gets it again)
 }
 
 // BusEntry is a telegram the gateway forwarded to the bus.
@@ -98,6 +99,7 @@ type Gateway struct {
 	DiscOnGiveUp   bool          // (always true: kept for the record of what "rule-following" means)
 	AckStatus      uint8         // status put into acknowledgements (0 = OK)
 	AckStatusOnce  bool
+	RefusePermille int           // odds of refusing an in-sequence telegram (error status in the acknowledgement, nothing on the bus)
 	DupAckThenDisc time.Duration // >0, one-shot: the next acknowledgement is sent twice and the connection ended this long afterwards
 	StaleAfter     int           // >0: counts acknowledged requests down; at 0 the same happens at once, with StaleExtra further acknowledgements (numbers 0..) nobody waits for
 	StaleExtra     int
@@ -338,9 +340,27 @@ func (g *Gateway) handle(raw []byte, from *net.UDPAddr, ref uint64) {
 			}
 			return
 		}
+		st := uint8(0)
 		switch f.Seq {
 		case ep.ExpIn:
 			ep.ExpIn++
+			st = g.AckStatus
+			if st != 0 {
+				g.e.Fault("ack-error-status")
+				if g.AckStatusOnce {
+					g.AckStatus = 0
+				}
+			} else if g.RefusePermille > 0 && g.e.Chance("flt.refuse", g.RefusePermille) {
+				st = []uint8{0x29, 0x21, 0x04}[g.e.Choose("flt.refusest", 3)]
+				g.e.Fault("ack-error-status")
+			}
+			ep.LastSt = st
+			if st != 0 {
+				// refused: the number is used up, the telegram goes nowhere, the acknowledgement says why
+				g.e.S.Logf("gw refuses id=%d seq=%d status=%#x", cemiID(f.CEMI), f.Seq, st)
+				g.e.Probe("gw-refused-a-telegram")
+				break
+			}
 			g.Bus = append(g.Bus, BusEntry{ID: cemiID(f.CEMI), Channel: f.Channel, Seq: f.Seq, At: g.e.Stamp()})
 			g.e.S.Logf("gw bus id=%d seq=%d", cemiID(f.CEMI), f.Seq)
 			if g.OnBus != nil {
@@ -348,6 +368,7 @@ func (g *Gateway) handle(raw []byte, from *net.UDPAddr, ref uint64) {
 			}
 		case ep.ExpIn - 1:
 			g.e.Probe("gw-duplicate-reacknowledged")
+			st = ep.LastSt
 		default:
 			g.e.Probe("gw-out-of-sequence-ignored")
 			return
@@ -355,13 +376,6 @@ func (g *Gateway) handle(raw []byte, from *net.UDPAddr, ref uint64) {
 		if g.NoAck {
 			g.e.Fault("gateway-noack")
 			return
-		}
-		st := g.AckStatus
-		if st != 0 {
-			g.e.Fault("ack-error-status")
-			if g.AckStatusOnce {
-				g.AckStatus = 0
-			}
 		}
 		g.send(mkTunnelRes(f.Channel, f.Seq, st))
 		fire, d := g.DupAckThenDisc > 0, g.DupAckThenDisc
@@ -467,7 +481,12 @@ func (g *Gateway) transmit(o *GwOut) {
 		}
 	}
 	if g.Busmon {
-		c = busmonCEMI(o.ID)
+		pad := 0
+		if g.InfoLen != nil {
+			// raw frames of every length up to what fills the client's receive buffer
+			pad = map[int]int{1: 1, 100: 100, 254: 254, 255: 1000}[g.InfoLen(o.ID)]
+		}
+		c = busmonCEMI(o.ID, pad)
 	}
 	if raw, ok := g.RawOf[o.ID]; ok {
 		c = raw
